@@ -7,7 +7,7 @@ From Coq Require Import List NArith ZArith Bool.
 From Falco Require Import Base.Bytes Gen.TokenTypes Model.ParseKinds Gen.ParserTables
   Model.ParseBase Model.Ast Model.ParseLit Model.ParseExpr Model.ParseStmt Model.ParseDecl Model.Yield
   Proofs.ParseTables Proofs.ParseExprYield Proofs.ParseExprTotal Proofs.ParsePratt Proofs.ParseRoundtrip
-  Proofs.ParseLitFacts Proofs.ParseStmtYield Proofs.ParseDeclYield Proofs.ParseStmtTotal Proofs.ParseDeclTotal.
+  Proofs.ParseLitFacts Proofs.ParseStmtYield Proofs.ParseDeclYield Proofs.ParseStmtTotal Proofs.ParseDeclTotal Proofs.ParseLocated Proofs.ParseLocated2.
 Import ListNotations.
 Local Open Scope N_scope.
 
@@ -137,6 +137,23 @@ Proof. exact parse_snippet_total. Qed.
 Theorem C02_parse_snippet_no_crash : forall fok ts, long_ok ts = true -> parse_snippet fok ts <> PCrash.
 Proof. exact parse_snippet_no_crash. Qed.
 
+(* parse_error_located: the token of EVERY *ParseError the model returns is the token of the input at
+   the reported index (length ts - rem, within [0, length ts)), or the EOF token behind the input.
+   [located ts t rem := t = eof_tok \/ (1 <= rem <= length ts /\ nth_error ts (length ts - rem) = Some t)].
+   (The index is compared with the Go parser's error token on every run.) *)
+Theorem C02_parse_error_located :
+  forall fok ts k t rem, parse_vcl_or_snippet fok ts = PErr k t rem -> located ts t rem.
+Proof. exact parse_error_located. Qed.
+Theorem C02_parse_vcl_error_located :
+  forall fok ts k t rem, parse_vcl fok ts = PErr k t rem -> located ts t rem.
+Proof. exact parse_vcl_error_located. Qed.
+Theorem C02_parse_snippet_error_located :
+  forall fok ts k t rem, parse_snippet fok ts = PErr k t rem -> located ts t rem.
+Proof. exact parse_snippet_error_located. Qed.
+Theorem C02_parse_expression_error_located :
+  forall fok ts k t rem, parse_expression fok ts = PErr k t rem -> located ts t rem.
+Proof. exact parse_expression_error_located. Qed.
+
 Print Assumptions C02_tables_are_documented.
 Print Assumptions C02_parse_expr_yield.
 Print Assumptions C02_parse_stmt_yield.
@@ -158,3 +175,7 @@ Print Assumptions C02_parse_vcl_total.
 Print Assumptions C02_parse_vcl_no_crash.
 Print Assumptions C02_parse_snippet_total.
 Print Assumptions C02_parse_snippet_no_crash.
+Print Assumptions C02_parse_error_located.
+Print Assumptions C02_parse_vcl_error_located.
+Print Assumptions C02_parse_snippet_error_located.
+Print Assumptions C02_parse_expression_error_located.
